@@ -205,8 +205,12 @@ class Grid(object):
         """
         filename = "{0}/{1}_{2:06}.h5".format(foldername, nameConvention, time)
         file = h5py.File(filename, 'w', driver='mpio', comm=self.global_comm)
-        dset = file.create_dataset(
-            "dset", self._layout.fullShape, dtype=self._f.dtype)
+        # The dataset is created collectively: its shape must not be taken
+        # from the layout, which knows no points on a process which is only
+        # there for plotting
+        fullShape = tuple(self._nGlobalCoords[d]
+                          for d in self._layout.dims_order)
+        dset = file.create_dataset("dset", fullShape, dtype=self._f.dtype)
         slices = tuple([slice(s, e) for s, e in zip(
             self._layout.starts, self._layout.ends)])
         dset[slices] = self._f[:]
